@@ -164,6 +164,9 @@ func MergeErrorsWithContext(ctx context.Context, cs ...<-chan error) <-chan erro
 			select {
 			case <-ctx.Done():
 				cancel(ctx.Err())
+				// Wait for the stage to wind down, otherwise its goroutines may
+				// outlive the storage transaction they are operating in.
+				<-c
 			case err := <-c:
 				if err != nil {
 					cancel(err)
